@@ -77,6 +77,12 @@ struct AllocState {
         bool live, array;
     } huge[16] = {};
     unsigned n_huge = 0;
+    // one-shot placement: the next array request of at most place_cap bytes is served at exactly this address, without header
+    // or canary (to put a library-owned block directly next to a caller-owned one); freeing it is a no-op
+    void *place_next = nullptr;
+    size_t place_cap = 0;
+    void *placed[8] = {};
+    unsigned n_placed = 0;
     // registry
     std::vector<Block> *blocks = nullptr;
     uint32_t next_id = 1;
@@ -137,6 +143,12 @@ inline void *raw_alloc(size_t n, bool array)
         a.oversize = true;
         throw std::bad_alloc();
     }
+    if (a.place_next && array && !a.bypass && n <= a.place_cap && a.n_placed < 8) {
+        void *p = a.place_next;
+        a.place_next = nullptr;
+        a.placed[a.n_placed++] = p;
+        return p;
+    }
     if (a.huge_lazy && n >= (size_t(64) << 20) && !a.bypass) {
         if (a.n_huge == 16) {  // drop the records of blocks that are gone
             unsigned k = 0;
@@ -177,6 +189,12 @@ inline void raw_free(void *p, bool array)
 {
     if (!p) return;
     AllocState &a = g_alloc;
+    for (unsigned i = 0; i < a.n_placed; ++i)
+        if (a.placed[i] == p) {
+            a.placed[i] = a.placed[--a.n_placed];
+            ++a.n_frees;
+            return;
+        }
     int hidx = -1;  // the address of an unmapped block is handed out again by the kernel: a live record wins over dead ones
     for (unsigned i = 0; i < a.n_huge; ++i)
         if (a.huge[i].ptr == p && (hidx < 0 || a.huge[i].live)) hidx = (int)i;
